@@ -1,9 +1,30 @@
-//! C14 sessions (seeded driver). Fill in.
+//! C14 sessions: ZonedDateTime add/subtract/until/since/startOfDay/hoursInDay over random synthetic zones.
 use super::Tracer;
 use crate::gen::*;
 use crate::rng::Rng;
 use serde_json::json;
 
 pub fn drive(t: &mut Tracer, r: &mut Rng, n: usize) {
-    let _ = (t, r, n);
+    let lgs = ["year", "month", "week", "day", "hour", "minute", "second"];
+    while t.n < n {
+        let (zone, ats) = super::c13::rand_zone(r);
+        let near = |r: &mut Rng| -> i64 { if ats.is_empty() || r.chance(1, 4) { r.range(-4 * 86_400, 40 * 86_400) } else { *r.pick(&ats) + match r.range(0, 2) { 0 => r.range(-4000, 4000), 1 => r.range(-90_000, 90_000), _ => r.range(-400_000, 400_000) } } };
+        let mut cur = near(r);
+        for _ in 0..r.range(5, 16) {
+            match r.range(0, 9) {
+                0..=2 => { let sg: i128 = if r.chance(1, 2) { 1 } else { -1 };
+                    let m = |r: &mut Rng, hi: i64| -> i128 { if r.chance(1, 2) { 0 } else { r.range(0, hi) as i128 } };
+                    let dur = dur10(0, sg * m(r, 2), sg * m(r, 2), sg * m(r, 5), sg * m(r, 30), sg * m(r, 90), sg * m(r, 4000), 0, 0, 0);
+                    let op = if r.chance(1, 2) { "Zoned.add" } else { "Zoned.subtract" };
+                    let out = t.call(op, json!({"zone": zone, "t": cur, "dur": dur}));
+                    if out["kind"] == "ok" { if let Some(v) = out["val"].as_i64() { if v.abs() < 400 * 86_400 { cur = v; } } } }
+                3..=6 => { let other = if r.chance(1, 3) { cur + r.range(-90_000, 90_000) } else { near(r) };
+                    let op = if r.chance(1, 2) { "Zoned.until" } else { "Zoned.since" };
+                    t.call(op, json!({"zone": zone, "t": cur, "other": other, "st": {"largest": *r.pick(&lgs)}})); }
+                7 => { t.call("Zoned.startOfDay", json!({"zone": zone, "t": cur})); }
+                _ => { t.call("Zoned.hoursInDay", json!({"zone": zone, "t": cur})); }
+            }
+        }
+        t.reset();
+    }
 }
